@@ -446,19 +446,46 @@ class ScopeRender:
         self.gotoexp = {}      # goto marker -> expected label marker
         self.nuses = 0
         self.callids = {}      # id passed to usei/usel -> chk name
+        self.size = {}         # (entity id, copy) -> sizeof observed for it, when it is not simply U
 
     def U(self, eid, c):
         return 11 + c * self.stride + eid
+
+    # type specifiers of size 1 / 4 / 8 an object or parameter declaration rotates through: arithmetic keyword(s),
+    # struct / union / enum specifier, pointer to void, _Bool, typeof - the declarator that follows may be spelled like
+    # a visible typedef name and must still be the declarator (6.7.2)
+    BASES = [("char", 1), ("struct chk_s1", 1), ("union chk_u1", 1), ("enum chk_e4", 4), ("void *", 8), ("_Bool", 1),
+             ("__typeof__(chk_c1)", 1), ("unsigned long", 8)]
+    PRE = ("void mark(int); void usei(int, int); void usel(int, unsigned long);\n"
+           "struct chk_s1 { char c; }; union chk_u1 { char c; }; enum chk_e4 { chk_e4v }; extern char chk_c1;")
+
+    def base(self, it, c, K, plain):
+        """(specifier text, size of one element) for the declaration item"""
+        if "ts" in it:
+            return self.nm(it["ts"], c), self.size.get((it["tsid"], c), self.U(it["tsid"], c))
+        if plain:
+            return "char", 1
+        return self.BASES[(K + c) % len(self.BASES)]
+
+    def val(self, eid, c):
+        return self.size.get((eid, c), self.U(eid, c))
+
+    def members(self, it, c):
+        txt, extra = "", 0
+        for m in it.get("mem", []):
+            txt += " %s %s;" % (self.nm(m["ts"], c), self.nm(m["name"], c))
+            extra += self.val(m["tsid"], c)
+        return txt, extra
 
     def expr(self, it, c):
         n, k = self.nm(it["name"], c), it["kind"]
         if it.get("form") == "call":
             return "%s()" % n
-        return {"obj": "sizeof(%s)", "xobj": "sizeof(%s)", "xfunc": "sizeof(*%s())", "typedef": "sizeof(%s)", "param": "sizeof(*%s)", "enum": "%s", "macro": "%s",
+        return {"obj": "sizeof(%s)", "xobj": "sizeof(%s)", "xfunc": "sizeof(*%s())", "typedef": "sizeof(%s)", "param": "sizeof(*%s)", "tparam": "sizeof(%s)", "enum": "%s", "macro": "%s",
                 "struct": "sizeof(struct %s)", "union": "sizeof(union %s)"}[k] % n
 
     def render(self):
-        out = ["void mark(int); void usei(int, int); void usel(int, unsigned long);"]
+        out = [self.PRE]
         stack = ["file"]
         plist = None
         pending_goto = []      # (marker, name, copy) of the current function
@@ -547,7 +574,10 @@ class ScopeRender:
                     k = it["kind"]
                     if top in ("stmt", "sub"):
                         # declared by a type name inside an expression: sizeof / _Alignof / cast / compound literal
-                        tn = "enum { %s = %d }" % (n, u) if k == "enum" else "%s %s { char m[%d]; }" % (k, n, u)
+                        mt, extra = self.members(it, c)
+                        if extra:
+                            self.size[(it["id"], c)] = u + extra
+                        tn = "enum { %s = %d }" % (n, u) if k == "enum" else "%s %s { char m[%d];%s }" % (k, n, u, mt)
                         v = (K + c) % 4
                         part = ("(void)sizeof(%s)" % tn if v == 0 else "(void)_Alignof(%s)" % tn if v == 1 else
                                 ("(void)(%s)0" if k == "enum" else "(void)(%s *)0") % tn if v == 2 else
@@ -557,13 +587,25 @@ class ScopeRender:
                     if op == "fwd":
                         out.append("%s %s;" % (k, n))
                     elif k in ("struct", "union"):
-                        t = "%s %s { char m[%d]; }" % (k, n, u)
+                        mt, extra = self.members(it, c)
+                        if extra:
+                            self.size[(it["id"], c)] = u + extra
+                        t = "%s %s { char m[%d];%s }" % (k, n, u, mt)
                         if top == "proto":
                             plist.append("%s *" % t)      # unnamed: the prototype scope may hold tags and no ordinary identifier
                         else:
                             out.append(t + ";")
+                    elif k == "tparam":        # `T T`: declared with the typedef of its own spelling; array type -> pointer
+                        t = "%s %s" % (self.nm(it["ts"], c), n)
+                        self.size[(it["id"], c)] = 8
+                        if top == "proto":
+                            plist.append(t)
+                        else:
+                            self._params.append(t)
                     elif k == "param":
-                        t = "char (*%s)[%d]" % (n, u)
+                        b, m = self.base(it, c, K, False)
+                        self.size[(it["id"], c)] = u * m
+                        t = "%s (*%s)[%d]" % (b, n, u)
                         if top == "proto":
                             plist.append(t)
                         elif top == "pscope":
@@ -576,7 +618,9 @@ class ScopeRender:
                         else:
                             out.append("enum { %s = %d };" % (n, u))
                     elif k == "typedef":
-                        out.append("typedef char %s[%d];" % (n, u))
+                        b, m = self.base(it, c, K, True)
+                        self.size[(it["id"], c)] = u * m
+                        out.append("typedef %s %s[%d];" % (b, n, u))
                     elif k == "xobj":        # declaration with linkage: u is the size of the ONE linked entity of that spelling
                         out.append("extern char %s[%d];" % (n, u))
                     elif k == "xfunc":
@@ -587,14 +631,16 @@ class ScopeRender:
                                 self._fordecl = []
                             self._fordecl.append("%s[%d]" % (n, u))
                         else:
-                            out.append("char %s[%d];" % (n, u))
+                            b, m = self.base(it, c, K, top == "file")     # file-scope objects stay char: `extern char` redeclares them
+                            self.size[(it["id"], c)] = u * m
+                            out.append("%s %s[%d];" % (b, n, u))
                 if it["kind"] == "obj" and top == "for":
                     out.append("for (char %s, *chkf_%d = 0; chkf_%d; ) {" % (", ".join(self._fordecl), K, K))
             elif op == "use":
                 for c in C:
                     if c not in self.use_copies:
                         continue
-                    e, u = self.expr(it, c), self.U(it["id"], c)
+                    e, u = self.expr(it, c), self.val(it["id"], c)
                     self.nuses += 1
                     if top == "proto":
                         plist.append("char (*chku_%d_%d)[(%s) == %d ? 1 : -1]" % (K, c, e, u))
@@ -890,6 +936,13 @@ def scope_check(ctx, objdir, hooks, exe):
     if not any(it.get("how") == "funcx" for c in fx for it in c["prog"]):
         raise vlib.MachineryError("MC_CScope_fx generated no multi-declarator function definition")
     scope_programs(ctx, objdir, exe, fx, "funcx", audit_n=40 if q else 300)
+    # declarators spelled like visible typedef names after every kind of type specifier
+    r = ctx.tlc_must_pass("CScope", "MC_CScope_td.cfg", workers=2, simulate=30 if q else 250, depth=150, timeout=1200)
+    td = [json.loads(v) for v in r.vcases]
+    seen = set(it["kind"] for c in td for it in c["prog"] if it["op"] == "decl" and "ts" in it)
+    if not ({"obj", "typedef", "tparam"} <= seen and any(it.get("mem") for c in td for it in c["prog"])):
+        raise vlib.MachineryError("MC_CScope_td did not generate every typedef-specifier declaration form: %s" % seen)
+    scope_programs(ctx, objdir, exe, td, "tdspec", audit_n=50 if q else 300)
     # declarations with linkage in nested blocks behind hiding declarations
     r = ctx.tlc_must_pass("CScope", "MC_CScope_link.cfg", workers=2, simulate=30 if q else 250, depth=150, timeout=1200)
     lk = [json.loads(v) for v in r.vcases]
@@ -1004,7 +1057,7 @@ def run(ctx):
             for m in re.finditer(r"^<(\w+) line \d+, col \d+ to line \d+, col \d+ of module (\w+) \((\d+) \d+ \d+ \d+\)>: (\d+):(\d+)", r.out, re.M):
                 cov["%s@%s:%s" % (m.group(1), m.group(2), m.group(3))] = (int(m.group(4)), int(m.group(5)))   # disjuncts of a Next without own name
             r.coverage = cov
-            untaken = [a for a, (found, gen) in r.coverage.items() if gen == 0 and a.split("@")[0] not in ("Turn", "OpenFuncX", "OpenStmt", "OpenSub", "CloseSub", "CloseStmt", "DeclLinked")]
+            untaken = [a for a, (found, gen) in r.coverage.items() if gen == 0 and a.split("@")[0] not in ("Turn", "OpenFuncX", "OpenStmt", "OpenSub", "CloseSub", "CloseStmt", "DeclLinked", "DeclTD")]
             # Turn: Deep only; OpenFuncX / statement scopes: enabled only in MC_CScope_fx / _stmt (simulation), where
             # scope_check itself refuses to continue unless every shape / statement form was generated
             ctx.cov.setdefault("untaken_actions", []).extend(untaken)
